@@ -1,8 +1,13 @@
 """Translator for C03: the tables of txdbus/message.py that the message model is parameterised by.
 
-Runtime objects: `_headerFormat`, `_protocolVersion`, `endian`, every message class's `_messageType`,
-`_headerAttrs` (any sequence of triples) and `_maxMsgLen` (per class: a subclass value is honoured by
-`_marshal`), `_mtype` (keys and classes), `_hcode`.
+Runtime objects: `_protocolVersion`, `endian`, every message class's `_messageType` and `_maxMsgLen` (pinned by the
+test suite; per class: a subclass value is honoured by `_marshal`).
+Private tables (`_headerFormat`, `_mtype`, `_hcode`, the classes' `_headerAttrs`): found through PUBLIC BEHAVIOUR
+(harness/c03_probe.py: header signature = the module-level string under which a constructed message's bytes decode and
+re-encode; class per type code = parseMessage of a minimal message of each type byte; attribute per field code =
+parseMessage of a message carrying each code; header rows = `_headerAttrs` or the header of a message built with every
+keyword).  The private names are the fast path and are cross-checked against the probe when they exist; when one is
+gone the probe answers and a sentence goes to `ADVISORIES`.
 Alignments: PROBED from the `marshal.pad` dict that the codec actually calls (`pad[c](n)` for n < 64; also
 `pad['header']`) and cross-checked with the alignment column of `marshal.dbus_types`.
 Three values that are code rather than tables are taken from the AST when it has the familiar shape and
@@ -18,6 +23,7 @@ import ast
 import inspect
 
 MODULE = 'TxdbusModel.Gen.Message'
+ADVISORIES = []          # reset by emit(); sentences for tables found by probing because a private name is gone
 
 ATTR = {'path': 'path', 'interface': 'interface', 'member': 'member', 'error_name': 'errorName',
         'reply_serial': 'replySerial', 'destination': 'destination', 'sender': 'sender',
@@ -83,71 +89,94 @@ def probe_alignment(fn, what):
 
 
 def fresh_next_serial(message):
+    """The serial the first message of a fresh process gets (= the initial value of the counter, whatever its name)."""
     import os, subprocess, sys
     root = os.path.dirname(os.path.dirname(os.path.abspath(message.__file__)))
     r = subprocess.run([sys.executable, '-c', 'import sys; sys.path.insert(0, %r); from txdbus import message as m; '
-                        'print(m.DBusMessage._nextSerial)' % root], capture_output=True, text=True, timeout=60)
+                        'print(m.MethodReturnMessage(1).serial)' % root], capture_output=True, text=True, timeout=60)
     try:
         return int(r.stdout.strip().split()[-1])
     except (ValueError, IndexError):
         raise TranslatorError('cannot determine the first serial: %s' % r.stderr[-300:])
 
 
-def probe_fds_entry(message):
-    """The header entry a method call with one descriptor carries beyond its class table."""
-    saved = message.DBusMessage._nextSerial
+def _keeping_counter(message, fn):
+    from harness import c03_probe as P
+    loc = P.serial_counter(message)
+    saved = getattr(loc[0], loc[1]) if loc else None
     try:
-        m = message.MethodCallMessage('/a', 'm', signature='h', body=[0], oobFDs=[])
+        return fn()
+    finally:
+        if loc:
+            setattr(loc[0], loc[1], saved)
+
+
+def probe_fds_entry(message, marshal, hsig, fields_by_code, call_rows):
+    """The header entry a method call with one descriptor carries beyond its class table: read from the header array
+    of its bytes (the field whose code is not a row of the class) and the attribute parseMessage stores it under."""
+    try:
+        m = _keeping_counter(message, lambda: message.MethodCallMessage('/a', 'm', signature='h', body=[0], oobFDs=[]))
+        n, vals = marshal.unmarshal(hsig, m.rawMessage, 0, True, [0])
     except Exception as e:
         raise TranslatorError('probe of the unix_fds header entry failed: %r' % (e,))
-    finally:
-        message.DBusMessage._nextSerial = saved
-    table = {c for _, c, _ in message.MethodCallMessage._headerAttrs}
-    extra = [(c, v) for c, v in m.headers if c not in table]
-    names = [n for n, v in vars(m).items() if n in ATTR and n not in {a for a, _, _ in message.MethodCallMessage._headerAttrs}
-             and v == 1]
-    if len(extra) != 1 or len(names) != 1:
-        raise TranslatorError('probe of the unix_fds header entry: extra headers %r, attributes %r' % (extra, names))
-    return (names[0], extra[0][0], False)
+    table = {c for _, c, _ in call_rows}
+    extra = [(c, v) for c, v in vals[6] if c not in table]
+    if len(extra) != 1 or extra[0][0] not in fields_by_code or extra[0][1] != 1:
+        raise TranslatorError('probe of the unix_fds header entry: extra header fields %r' % (extra,))
+    return (fields_by_code[extra[0][0]], extra[0][0], False)
 
 
 def probe_reserved_paths(message, marshal, tree):
     cands = sorted({n.value for n in ast.walk(tree) if isinstance(n, ast.Constant) and isinstance(n.value, str)
                     and n.value.startswith('/')})
     out = []
-    saved = message.DBusMessage._nextSerial
-    try:
-        for p in cands:
-            try:
-                marshal.validateObjectPath(p)
-            except Exception:
-                continue
-            try:
-                message.MethodCallMessage(p, 'm')
-            except Exception:
-                out.append(p)
-    finally:
-        message.DBusMessage._nextSerial = saved
+    for p in cands:
+        try:
+            marshal.validateObjectPath(p)
+        except Exception:
+            continue
+        try:
+            _keeping_counter(message, lambda: message.MethodCallMessage(p, 'm'))
+        except Exception:
+            out.append(p)
     return out
 
 
 def tables(message, marshal):
+    from harness import c03_probe as P
     t = {}
-    fmt = message._headerFormat
-    if not isinstance(fmt, str):
-        raise TranslatorError('_headerFormat is not a str: %r' % (fmt,))
+    try:
+        fmt = P.header_signature(message, marshal, ADVISORIES)
+        fields_by_code = P.field_by_code(message, marshal, fmt, ADVISORIES)
+        classes_by_type = P.class_by_type(message, marshal, fmt, ADVISORIES)
+    except P.ProbeError as e:
+        raise TranslatorError(str(e))
     t['headerFormat'] = fmt
     base = message.DBusMessage
     t['maxMsgLen'] = nat(base._maxMsgLen, '_maxMsgLen')
-    t['protocolVersion'] = nat(base._protocolVersion, '_protocolVersion')
-    t['endian'] = nat(base.endian, 'endian')
+    # version byte and byte-order mark: what a constructed message carries (cross-checked with the class attributes
+    # `_protocolVersion` / `endian` when they exist under these names)
+    smp = P.sample(message).rawMessage
+    for key, name, got in (('protocolVersion', '_protocolVersion', smp[3]), ('endian', 'endian', smp[0])):
+        fast = getattr(base, name, None)
+        if isinstance(fast, int) and not isinstance(fast, bool):
+            if fast != got:
+                raise TranslatorError('DBusMessage.%s = %r, but a constructed message carries %r' % (name, fast, got))
+        else:
+            ADVISORIES.append('DBusMessage.%s is gone: value %d read from the bytes of a constructed message' % (name, got))
+        t[key] = nat(got, name)
     tree = ast.parse(inspect.getsource(message))
     # the first serial: the literal in the class body, else the value a fresh interpreter sees
     found = None
+    _loc = P.serial_counter(message)
+    counter_name = _loc[1] if _loc else '_nextSerial'
+    if counter_name != '_nextSerial':
+        ADVISORIES.append('DBusMessage._nextSerial is gone: the serial counter is the class attribute %r (the integer a '
+                          'construction advances)' % counter_name)
     try:
         for node in find_class(tree, 'DBusMessage').body:
             if isinstance(node, ast.Assign) and len(node.targets) == 1 and isinstance(node.targets[0], ast.Name) \
-                    and node.targets[0].id == '_nextSerial' and isinstance(node.value, ast.Constant) \
+                    and node.targets[0].id == counter_name and isinstance(node.value, ast.Constant) \
                     and isinstance(node.value.value, int) and not isinstance(node.value.value, bool):
                 found = node.value.value
     except TranslatorError:
@@ -162,20 +191,22 @@ def tables(message, marshal):
         k = getattr(message, pyname, None)
         if k is None:
             raise TranslatorError('class %s missing' % pyname)
-        if not isinstance(k._headerAttrs, (list, tuple)):
-            raise TranslatorError('%s._headerAttrs is not a sequence' % pyname)
+        try:
+            rows = P.header_attrs(message, marshal, fmt, pyname, fields_by_code, ADVISORIES)
+        except P.ProbeError as e:
+            raise TranslatorError(str(e))
         t['classes'].append((pyname, lean, nat(k._messageType, pyname + '._messageType'),
-                             [entry(tuple(e) if isinstance(e, (list, tuple)) else e, pyname + '._headerAttrs')
-                              for e in k._headerAttrs], nat(k._maxMsgLen, pyname + '._maxMsgLen')))
+                             [entry(tuple(e), pyname + '._headerAttrs') for e in rows],
+                             nat(k._maxMsgLen, pyname + '._maxMsgLen')))
         by_class[k] = lean
     # _mtype
     t['mtype'] = []
-    for code, k in message._mtype.items():
+    for code, k in classes_by_type.items():
         if k not in by_class:
-            raise TranslatorError('_mtype[%r] = %r is not one of the four message classes' % (code, k))
+            raise TranslatorError('message type %r is parsed into %r, which is not one of the four message classes' % (code, k))
         t['mtype'].append((nat(code, '_mtype key'), by_class[k]))
     # _hcode
-    t['hcode'] = [(nat(code, '_hcode key'), attr(name, '_hcode')) for code, name in message._hcode.items()]
+    t['hcode'] = [(nat(code, '_hcode key'), attr(name, '_hcode')) for code, name in fields_by_code.items()]
     # alignments: what `marshal.pad[c]` does, cross-checked with the column of dbus_types
     t['align'] = []
     column = {}
@@ -203,7 +234,11 @@ def tables(message, marshal):
     except TranslatorError:
         app = []
     if len(app) != 1:
-        app = [probe_fds_entry(message)]
+        call_rows = [c for c in t['classes'] if c[0] == 'MethodCallMessage'][0]
+        app = [probe_fds_entry(message, marshal, fmt, fields_by_code,
+                               P.header_attrs(message, marshal, fmt, 'MethodCallMessage', fields_by_code))]
+        ADVISORIES.append('the `_headerAttrs.append((...))` statement of _marshal was not recognised: the unix_fds entry %r '
+                          'was read from the header of a method call carrying one descriptor' % (app[0],))
     t['unixFdsEntry'] = entry(app[0], 'appended header entry')
     # the reserved path: AST shape, else the string constant of the module that is a valid path and is refused
     res = []
@@ -219,6 +254,8 @@ def tables(message, marshal):
         res = []
     if len(res) != 1:
         res = probe_reserved_paths(message, marshal, tree)
+        ADVISORIES.append('the `if path == <literal>: raise` statement of MethodCallMessage.__init__ was not recognised: '
+                          'reserved path found by probing the module\'s path constants')
     if len(res) != 1:
         raise TranslatorError('could not determine the reserved path of MethodCallMessage: candidates %r' % (res,))
     t['reservedPath'] = res[0]
@@ -227,6 +264,7 @@ def tables(message, marshal):
 
 def emit(repo):
     from txdbus import marshal, message
+    del ADVISORIES[:]
     t = tables(message, marshal)
     L = []
     w = L.append
